@@ -46,17 +46,16 @@ theorem wrel_addCond {w0 w : Evm.World} {this : Nat} {st0 X : SState} {c1 : B}
     WRel I w0 w this (addCond s X c1).storage (addCond s X c1).transient := by
   rw [(addCond_storage s X c1).1, (addCond_storage s X c1).2, hs, ht]; exact h
 
-/-- **step_sound.** -/
-theorem step_sound (hs : SimpSound s) (hI : I.Std) (hR : R I env code p st f) (hsat : Sat I st.path)
-    (hl : f.stack.length ≤ 1024) (hmem : cfg.maxMem + 32 ≤ p.memLimit) (hcode : ∀ b ∈ code, b < 256)
+/-- what a one-step correspondence gives for soundness, whatever produced it -/
+theorem corr_sound (hs : SimpSound s) {out : StepOut} (hc : Corr I env code p w s o cfg st f out)
     {w0 : Evm.World} (hW : WRel I w0 w f.this st.storage st.transient) :
-    (∀ st' ∈ (step s o cfg env code st).next, Sat I st'.path →
+    (∀ st' ∈ out.next, Sat I st'.path →
         ∃ w' f', CReach p (w, f) (w', f') ∧ R I env code p st' f' ∧
           WRel I w0 w' f.this st'.storage st'.transient) ∧
-    (∀ e ∈ (step s o cfg env code st).ends, e.tag = .normal → ∀ h, e.out = .halt h →
+    (∀ e ∈ out.ends, e.tag = .normal → ∀ h, e.out = .halt h →
         Evm.step p w f = .halt w (haltWith h (e.data.map (·.eval I))) ∧
         e.st.storage = st.storage ∧ e.st.transient = st.transient ∧ (∀ b ∈ e.data, b.WF ∧ b.width = 8)) := by
-  rcases step_corr (w := w) (o := o) (cfg := cfg) hs hI hR hsat hl hmem hcode hW with
+  rcases hc with
     ⟨st1, w1, f1, e, _, _, hreach, hR1, hws⟩ | ⟨st0, h0, data, e, hp, hs0, ht0, hdwf, hstep⟩ | ⟨e0, e, hp, hnc⟩ |
     ⟨st0, target, c, e, hc, hp, _, hs0, ht0, htrue, hbad, hfalse⟩
   · rw [e]
@@ -105,6 +104,18 @@ theorem step_sound (hs : SimpSound s) (hI : I.Std) (hR : R I env code p st f) (h
     · intro e' hm hn
       rw [(jumpi_ends hm).1] at hn; cases hn
 
+/-- **step_sound.** -/
+theorem step_sound (hs : SimpSound s) (hI : I.Std) (hR : R I env code p st f) (hsat : Sat I st.path)
+    (hl : f.stack.length ≤ 1024) (hmem : cfg.maxMem + 32 ≤ p.memLimit) (hcode : ∀ b ∈ code, b < 256)
+    {w0 : Evm.World} (hW : WRel I w0 w f.this st.storage st.transient) :
+    (∀ st' ∈ (step s o cfg env code st).next, Sat I st'.path →
+        ∃ w' f', CReach p (w, f) (w', f') ∧ R I env code p st' f' ∧
+          WRel I w0 w' f.this st'.storage st'.transient) ∧
+    (∀ e ∈ (step s o cfg env code st).ends, e.tag = .normal → ∀ h, e.out = .halt h →
+        Evm.step p w f = .halt w (haltWith h (e.data.map (·.eval I))) ∧
+        e.st.storage = st.storage ∧ e.st.transient = st.transient ∧ (∀ b ∈ e.data, b.WF ∧ b.width = 8)) :=
+  corr_sound hs (step_corr (w := w) (o := o) (cfg := cfg) hs hI hR hsat hl hmem hcode hW) hW
+
 /-- an end state covers the concrete result `r = (world, outcome)` of the valuation `I`: its path is satisfied and it
     either reports exactly that outcome — kind and returned bytes — untagged, with storage maps describing exactly that
     world (relative to the start world `w0`, for the account `this`), or it is an error report (stuck), or it is tagged
@@ -115,17 +126,17 @@ def EndCovers (I : Interp) (w0 : Evm.World) (this : Nat) (r : Evm.World × Evm.H
         WRel I w0 r.1 this e.st.storage e.st.transient ∧ (∀ b ∈ e.data, b.WF ∧ b.width = 8)) ∨
      (∃ r', e.out = .stuck r') ∨ e.tag ≠ .normal)
 
-/-- **step_complete.** -/
-theorem step_complete (hs : SimpSound s) (ho : OracleSound o) (hI : I.Std) (hR : R I env code p st f)
-    (hl : f.stack.length ≤ 1024) (hmem : cfg.maxMem + 32 ≤ p.memLimit) (hcode : ∀ b ∈ code, b < 256)
+/-- what a one-step correspondence gives for completeness, whatever produced it -/
+theorem corr_complete (hs : SimpSound s) (ho : OracleSound o) {out : StepOut}
+    (hc : Corr I env code p w s o cfg st f out)
     {w0 : Evm.World} (hW : WRel I w0 w f.this st.storage st.transient)
     (hsat : Sat I st.path) {r : Evm.World × Evm.Halt} (hh : Halts p w f r) :
-    (∃ st' ∈ (step s o cfg env code st).next, Sat I st'.path ∧
+    (∃ st' ∈ out.next, Sat I st'.path ∧
         ∃ w' f', CReach p (w, f) (w', f') ∧ R I env code p st' f' ∧ WRel I w0 w' f.this st'.storage st'.transient ∧
           Halts p w' f' r) ∨
-    (∃ e ∈ (step s o cfg env code st).ends, EndCovers I w0 f.this r e) ∨
-    (step s o cfg env code st).bounded ≠ [] := by
-  rcases step_corr (w := w) (o := o) (cfg := cfg) hs hI hR hsat hl hmem hcode hW with
+    (∃ e ∈ out.ends, EndCovers I w0 f.this r e) ∨
+    out.bounded ≠ [] := by
+  rcases hc with
     ⟨st1, w1, f1, e, hsat1, _, hreach, hR1, hws⟩ | ⟨st0, h0, data, e, hp, hs0, ht0, hdwf, hstep⟩ | ⟨e0, e, hp, hnc⟩ |
     ⟨st0, target, c, e, hc, hp, _, hs0, ht0, htrue, hbad, hfalse⟩
   · left
@@ -187,6 +198,18 @@ theorem step_complete (hs : SimpSound s) (ho : OracleSound o) (hI : I.Std) (hR :
             (halts_reach hr2).1 hh⟩
       · right; right; rw [hb]; simp
       · right; left; exact ⟨e', hm, htag e' hm hte⟩
+
+/-- **step_complete.** -/
+theorem step_complete (hs : SimpSound s) (ho : OracleSound o) (hI : I.Std) (hR : R I env code p st f)
+    (hl : f.stack.length ≤ 1024) (hmem : cfg.maxMem + 32 ≤ p.memLimit) (hcode : ∀ b ∈ code, b < 256)
+    {w0 : Evm.World} (hW : WRel I w0 w f.this st.storage st.transient)
+    (hsat : Sat I st.path) {r : Evm.World × Evm.Halt} (hh : Halts p w f r) :
+    (∃ st' ∈ (step s o cfg env code st).next, Sat I st'.path ∧
+        ∃ w' f', CReach p (w, f) (w', f') ∧ R I env code p st' f' ∧ WRel I w0 w' f.this st'.storage st'.transient ∧
+          Halts p w' f' r) ∨
+    (∃ e ∈ (step s o cfg env code st).ends, EndCovers I w0 f.this r e) ∨
+    (step s o cfg env code st).bounded ≠ [] :=
+  corr_complete hs ho (step_corr (w := w) (o := o) (cfg := cfg) hs hI hR hsat hl hmem hcode hW) hW hsat hh
 
 /-! ### with the stack limit (`stepL`): no hypothesis on the length of the concrete stack is left -/
 
